@@ -5,11 +5,11 @@ open Req.Proto Req.Ascii
 
 /-! ### what a body may carry -/
 
-/-- A field that multipart/form-data can carry: non-empty name made of bytes a header value may
-contain (Go's `multipart.Writer` writes field names unencoded), value free of the delimiter. -/
+/-- A field that multipart/form-data can carry: a non-empty name (ANY bytes — the name is
+quoted like a file name since fixes/C17-7; an empty name is refused by `checkField`) and a
+value free of the delimiter. -/
 structure FieldOK (b : Bytes) (kv : Bytes × Bytes) : Prop where
   name_ne : kv.1 ≠ []
-  name_safe : ∀ c ∈ kv.1, headerUnsafe c = false
   free : BoundaryFree (delim b) (crlf ++ kv.2)
 
 /-- A content type the part header can carry: blank (no header is written), or valid header
@@ -30,7 +30,7 @@ structure FileOK (b : Bytes) (f : File) : Prop where
 /-- The content type the server finds on the part. -/
 def seenCType (f : File) : Bytes := if isStringEmpty f.ctype then [] else f.ctype
 
-def fieldItem (kv : Bytes × Bytes) : Item := .field kv.1 kv.2
+def fieldItem (kv : Bytes × Bytes) : Item := .field (arrive kv.1) kv.2
 def fileItem (f : File) : Item := .file (arrive f.param) (arrive f.filename) (seenCType f) f.content
 
 def fieldHeaders (kv : Bytes × Bytes) : List (Bytes × Bytes) := [(cdHeader, fieldDisposition kv.1)]
@@ -51,36 +51,7 @@ theorem header_consts :
     (cdHeader == ctHeader) = false ∧ (nameKey == filenameKey) = false ∧
     lower nameKey = nameKey ∧ lower filenameKey = filenameKey := by decide
 
-theorem escapeQuotes_valid (k : Bytes) (h : ∀ c ∈ k, headerUnsafe c = false) :
-    ∀ c ∈ escapeQuotes k, validValueByte c = true := by
-  intro c hc
-  simp only [escapeQuotes, List.mem_flatMap] at hc
-  obtain ⟨x, hx, hcx⟩ := hc
-  split at hcx
-  · simp at hcx; rcases hcx with rfl | rfl <;> decide
-  · split at hcx
-    · simp at hcx; rcases hcx with rfl | rfl <;> decide
-    · simp at hcx; subst hcx; simp [validValueByte, h c hx]
-
 /-! ### dispositions as header values -/
-
-theorem fieldDisposition_value (k : Bytes) (h : ∀ c ∈ k, headerUnsafe c = false) :
-    fieldDisposition k ≠ [] ∧ (∀ c ∈ fieldDisposition k, validValueByte c = true) ∧
-    ((fieldDisposition k).head?.map isLWS).getD false = false ∧
-    ((fieldDisposition k).getLast?.map isLWS).getD false = false := by
-  obtain ⟨-, -, -, -, hfd, hnk, -⟩ := header_consts
-  refine ⟨by simp [fieldDisposition, formData], ?_, by simp [fieldDisposition, formData]; decide, ?_⟩
-  · intro c hc
-    simp only [fieldDisposition, List.mem_append, List.mem_cons] at hc
-    rcases hc with ((((hc | hc) | hc) | hc) | hc) | hc
-    · exact hfd c hc
-    · simp at hc; rcases hc with rfl | rfl <;> decide
-    · exact hnk c hc
-    · simp at hc; rcases hc with rfl | rfl <;> decide
-    · exact escapeQuotes_valid k h c hc
-    · simp at hc; subst hc; decide
-  · have : fieldDisposition k = (formData ++ [59, 32] ++ nameKey ++ [61, 34] ++ escapeQuotes k) ++ [34] := rfl
-    rw [this, List.getLast?_concat]; decide
 
 theorem cdParam_valid (p : Bytes × Bytes) (hk : ∀ x ∈ p.1, isTokenChar x = true) :
     ∀ c ∈ cdParam p, validValueByte c = true := by
@@ -93,30 +64,56 @@ theorem cdParam_valid (p : Bytes × Bytes) (hk : ∀ x ∈ p.1, isTokenChar x = 
   · exact quote_valid p.2 c hc
   · simp at hc; subst hc; decide
 
-theorem fileDisposition_value (f : File) (hg : GoodParams (fileParams f)) (hne : fileParams f ≠ []) :
-    fileDisposition f ≠ [] ∧ (∀ c ∈ fileDisposition f, validValueByte c = true) ∧
-    ((fileDisposition f).head?.map isLWS).getD false = false ∧
-    ((fileDisposition f).getLast?.map isLWS).getD false = false := by
+/-- `form-data` followed by a non-empty list of good parameters is a valid header value. -/
+theorem disposition_value (l : List (Bytes × Bytes)) (hg : GoodParams l) (hne : l ≠ []) :
+    formData ++ l.flatMap cdParam ≠ [] ∧ (∀ c ∈ formData ++ l.flatMap cdParam, validValueByte c = true) ∧
+    ((formData ++ l.flatMap cdParam).head?.map isLWS).getD false = false ∧
+    ((formData ++ l.flatMap cdParam).getLast?.map isLWS).getD false = false := by
   obtain ⟨-, -, -, -, hfd, -⟩ := header_consts
-  refine ⟨by simp [fileDisposition, formData], ?_, by simp [fileDisposition, formData]; decide, ?_⟩
+  refine ⟨by simp [formData], ?_, by simp [formData]; decide, ?_⟩
   · intro c hc
-    simp only [fileDisposition, List.mem_append, List.mem_flatMap] at hc
+    simp only [List.mem_append, List.mem_flatMap] at hc
     rcases hc with hc | ⟨p, hp, hc⟩
     · exact hfd c hc
     · exact cdParam_valid p (hg.1 p hp).2.1 c hc
-  · obtain ⟨l', pl, hl⟩ : ∃ l' pl, fileParams f = l' ++ [pl] :=
-      ⟨(fileParams f).dropLast, (fileParams f).getLast hne, (List.dropLast_concat_getLast hne).symm⟩
-    have : fileDisposition f
+  · obtain ⟨l', pl, hl⟩ : ∃ l' pl, l = l' ++ [pl] :=
+      ⟨l.dropLast, l.getLast hne, (List.dropLast_concat_getLast hne).symm⟩
+    have : formData ++ l.flatMap cdParam
         = (formData ++ l'.flatMap cdParam ++ ([59, 32] ++ pl.1 ++ [61, 34] ++ quote pl.2)) ++ [34] := by
-      simp [fileDisposition, hl, cdParam]
+      simp [hl, cdParam]
     rw [this, List.getLast?_concat]; decide
+
+theorem fileDisposition_value (f : File) (hg : GoodParams (fileParams f)) (hne : fileParams f ≠ []) :
+    fileDisposition f ≠ [] ∧ (∀ c ∈ fileDisposition f, validValueByte c = true) ∧
+    ((fileDisposition f).head?.map isLWS).getD false = false ∧
+    ((fileDisposition f).getLast?.map isLWS).getD false = false :=
+  disposition_value (fileParams f) hg hne
+
+theorem goodParams_name (k : Bytes) : GoodParams [(nameKey, k)] := by
+  refine ⟨?_, by simp⟩
+  intro p hp
+  simp only [List.mem_singleton] at hp
+  subst hp
+  show nameKey ≠ [] ∧ (∀ x ∈ nameKey, isTokenChar x = true) ∧ (lower nameKey).contains 42 = false
+  decide
+
+theorem fieldDisposition_eq (k : Bytes) :
+    fieldDisposition k = formData ++ [(nameKey, k)].flatMap cdParam := by
+  simp [fieldDisposition]
+
+theorem fieldDisposition_value (k : Bytes) :
+    fieldDisposition k ≠ [] ∧ (∀ c ∈ fieldDisposition k, validValueByte c = true) ∧
+    ((fieldDisposition k).head?.map isLWS).getD false = false ∧
+    ((fieldDisposition k).getLast?.map isLWS).getD false = false := by
+  rw [fieldDisposition_eq]
+  exact disposition_value _ (goodParams_name k) (by simp)
 
 /-! ### good parts -/
 
 theorem goodPart_field (b : Bytes) (kv : Bytes × Bytes) (h : FieldOK b kv) :
     GoodPart (delim b) (fieldPart kv) (fieldHeaders kv) := by
   obtain ⟨hcd, hcanon, -⟩ := header_consts
-  obtain ⟨v1, v2, v3, v4⟩ := fieldDisposition_value kv.1 h.name_safe
+  obtain ⟨v1, v2, v3, v4⟩ := fieldDisposition_value kv.1
   refine ⟨?_, by simp [fieldPart, fieldHeader, headerLine, cdHeader], h.free⟩
   intro n rest hn
   obtain ⟨m, rfl⟩ : ∃ m, n = m + 2 := ⟨n - 2, by omega⟩
@@ -164,14 +161,17 @@ theorem safe_no_crlf (k : Bytes) (h : ∀ c ∈ k, headerUnsafe c = false) :
     ∀ c ∈ k, (c == 13) = false ∧ (c == 10) = false :=
   fun c hc => safe_facts c (h c hc)
 
-theorem itemOf_field (kv : Bytes × Bytes) (hne : kv.1 ≠ []) (hs : ∀ c ∈ kv.1, headerUnsafe c = false) :
+theorem itemOf_field (kv : Bytes × Bytes) (hne : kv.1 ≠ []) :
     itemOf ⟨fieldHeaders kv, kv.2⟩ = .ok (some (fieldItem kv)) := by
-  obtain ⟨-, -, -, -, -, -, -, hnf, -⟩ := header_consts
-  have hk : kv.1.isEmpty = false := by
-    cases h : kv.1 with
-    | nil => exact absurd h hne
+  obtain ⟨-, -, -, -, -, -, -, hnf, hln, -⟩ := header_consts
+  have ha : (arrive kv.1).isEmpty = false := by
+    have := arrive_ne_nil kv.1 hne
+    cases hx : arrive kv.1 with
+    | nil => exact absurd hx this
     | cons c cs => rfl
-  simp [itemOf, fieldHeaders, lookup, parseMediaType_field kv.1 (safe_no_crlf kv.1 hs), hnf, hk, fieldItem]
+  have hpm := parseMediaType_cdParams [(nameKey, kv.1)] (goodParams_name kv.1)
+  rw [← fieldDisposition_eq] at hpm
+  simp [itemOf, fieldHeaders, lookup, hpm, hnf, hln, ha, fieldItem]
 
 theorem fileParams_shape (f : File) (hp : f.param ≠ []) (hn : f.filename ≠ []) :
     fileParams f = (nameKey, f.param) :: (filenameKey, f.filename) :: f.extra := by
@@ -212,6 +212,113 @@ theorem itemOf_file (b : Bytes) (f : File) (h : FileOK b f) :
   simp only [hlk, hct]
   rw [hfd, hpm]
   simp [lookup, hln, hlf, hnf, ha1, ha2, fileItem]
+
+/-! ### the error branch of `writeChecked` and what it guarantees -/
+
+set_option maxRecDepth 100000 in
+theorem tchar_token : ∀ c : UInt8, isTChar c = true → isTokenChar c = true := by
+  apply Req.Form.byte_forall
+  decide
+
+theorem checkAll_ok {α} (chk : α → Except WriteErr Unit) (l : List α) :
+    checkAll chk l = .ok () ↔ ∀ x ∈ l, chk x = .ok () := by
+  induction l with
+  | nil => simp [checkAll]
+  | cons x xs ih =>
+    simp only [checkAll, List.mem_cons, forall_eq_or_imp]
+    cases h : chk x with
+    | error e => simp
+    | ok u => cases u; simp [ih]
+
+theorem checkAll_cases {α} (chk : α → Except WriteErr Unit) (l : List α) :
+    checkAll chk l = .ok () ∨ ∃ x ∈ l, ∃ e, chk x = .error e ∧ checkAll chk l = .error e := by
+  induction l with
+  | nil => left; rfl
+  | cons x xs ih =>
+    cases h : chk x with
+    | error e => right; exact ⟨x, by simp, e, h, by simp [checkAll, h]⟩
+    | ok u =>
+      cases u
+      rcases ih with ih | ⟨y, hy, e, h1, h2⟩
+      · left; simp [checkAll, h, ih]
+      · right; exact ⟨y, List.mem_cons_of_mem _ hy, e, h1, by simp [checkAll, h, h2]⟩
+
+theorem checkField_ok (kv : Bytes × Bytes) : checkField kv = .ok () ↔ kv.1 ≠ [] := by
+  unfold checkField
+  cases h : kv.1 with
+  | nil => simp
+  | cons c cs => simp
+
+theorem checkFile_ok (f : File) :
+    checkFile f = .ok () ↔
+      (∀ c ∈ f.ctype, headerUnsafe c = false) ∧ ∀ p ∈ f.extra, p.1 ≠ [] ∧ ∀ c ∈ p.1, isTChar c = true := by
+  unfold checkFile validFieldValue validParamKey
+  by_cases h1 : (f.ctype.all fun c => !headerUnsafe c) = true
+  · by_cases h2 : (f.extra.any fun p => !(!p.1.isEmpty && p.1.all isTChar)) = true
+    · simp only [h1, h2, Bool.not_true, Bool.false_eq_true, if_false, if_true, reduceCtorEq, false_iff]
+      intro ⟨_, hk⟩
+      simp only [List.any_eq_true] at h2
+      obtain ⟨p, hp, hb⟩ := h2
+      obtain ⟨k1, k2⟩ := hk p hp
+      have : p.1.isEmpty = false := by cases hx : p.1 with
+        | nil => exact absurd hx k1
+        | cons c cs => rfl
+      have h3 : p.1.all isTChar = true := List.all_eq_true.mpr k2
+      simp [this, h3] at hb
+    · simp only [h1, h2, Bool.not_true, Bool.false_eq_true, if_false, true_iff]
+      constructor
+      · intro c hc
+        have := List.all_eq_true.mp h1 c hc
+        simpa using this
+      · intro p hp
+        have hn : (!p.1.isEmpty && p.1.all isTChar) = true := by
+          cases hb : (!p.1.isEmpty && p.1.all isTChar) with
+          | true => rfl
+          | false => exact absurd (List.any_eq_true.mpr ⟨p, hp, by simp [hb]⟩) h2
+        simp only [Bool.and_eq_true, List.all_eq_true] at hn
+        refine ⟨?_, hn.2⟩
+        intro he; simp [he] at hn
+  · simp only [h1, Bool.not_false, if_true, reduceCtorEq, false_iff]
+    intro ⟨hc, _⟩
+    apply h1
+    apply List.all_eq_true.mpr
+    intro c hcm
+    simp [hc c hcm]
+
+/-- What remains a DOMAIN restriction of a file upload once `checkFile` has accepted it:
+non-empty names (`SetFileUpload` refuses the others), extra parameter names without `*`
+(RFC 2231 continuations are another syntax) and pairwise different from each other and from
+`name` / `filename` ignoring case, a content type without surrounding blanks (a header value is
+trimmed), content free of the delimiter. -/
+structure FileDomain (b : Bytes) (f : File) : Prop where
+  param_ne : f.param ≠ []
+  filename_ne : f.filename ≠ []
+  keys_plain : ∀ p ∈ f.extra, (lower p.1).contains 42 = false
+  keys_nodup : ((fileParams f).map fun p => lower p.1).Nodup
+  ctype_trim : isStringEmpty f.ctype = true ∨
+    ((f.ctype.head?.map isLWS).getD false = false ∧ (f.ctype.getLast?.map isLWS).getD false = false)
+  free : BoundaryFree (delim b) (crlf ++ f.content)
+
+theorem fileOK_of_checked (b : Bytes) (f : File) (hc : checkFile f = .ok ()) (hd : FileDomain b f) :
+    FileOK b f := by
+  obtain ⟨hct, hkeys⟩ := (checkFile_ok f).mp hc
+  refine ⟨hd.param_ne, hd.filename_ne, ⟨?_, hd.keys_nodup⟩, ?_, hd.free⟩
+  · intro p hp
+    rw [fileParams_shape f hd.param_ne hd.filename_ne] at hp
+    simp only [List.mem_cons] at hp
+    rcases hp with rfl | rfl | hp
+    · show nameKey ≠ [] ∧ (∀ x ∈ nameKey, isTokenChar x = true) ∧ (lower nameKey).contains 42 = false
+      decide
+    · show filenameKey ≠ [] ∧ (∀ x ∈ filenameKey, isTokenChar x = true) ∧ (lower filenameKey).contains 42 = false
+      decide
+    · exact ⟨(hkeys p hp).1, fun x hx => tchar_token x ((hkeys p hp).2 x hx), hd.keys_plain p hp⟩
+  · rcases hd.ctype_trim with hb | ⟨t1, t2⟩
+    · exact Or.inl hb
+    · by_cases hb : isStringEmpty f.ctype = true
+      · exact Or.inl hb
+      · right
+        refine ⟨?_, fun c hc => by simp [validValueByte, hct c hc], t1, t2⟩
+        intro he; simp [he, isStringEmpty] at hb
 
 theorem itemsOf_map {α} (l : List α) (raw : α → RawPart) (item : α → Item)
     (h : ∀ x ∈ l, itemOf (raw x) = .ok (some (item x))) :
